@@ -685,14 +685,9 @@ impl SymbolicBDD {
     fn parse_negation(tokens: &mut TokenReader) -> io::Result<Self> {
         expect(SymbolicBDDToken::Not, tokens)?;
 
-        let sf = Self::parse_simple_sub_formula(tokens);
-
-        if let Ok(sf_ok) = sf {
-            Ok(Self::Not(Box::new(sf_ok)))
-        } else {
-            // failover if the next part is not a simple formula
-            Ok(Self::Not(Box::new(Self::parse_sub_formula(tokens)?)))
-        }
+        // a negation applies to the next simple formula; if that part does not parse the input is
+        // malformed (the tokens it consumed are gone, so re-parsing from here would accept garbage)
+        Ok(Self::Not(Box::new(Self::parse_simple_sub_formula(tokens)?)))
     }
 
     fn parse_parentized_formula(tokens: &mut TokenReader) -> io::Result<Self> {
